@@ -195,6 +195,49 @@ def problem_line(p, clamp=1, trace=8, **over):
     return solve_line(q["integ"], q["L"], q["csc"], q["kind"], clamp, q["ncell"], q["ns"], q["perm"], q["rx"], q["k"], q["y"],
                       q["atol"], q["rtol"], q["dt"], trace, q["ptoks"])
 
+def bsolve_line(p, reorder, clamp=1, trace=0, **over):
+    """the by-name end-to-end variant of `solve`: tolerances as species properties (negative = none), builder reordering"""
+    q = dict(p); q.update(over)
+    toks = solve_line(q["integ"], q["L"], q["csc"], q["kind"], clamp, q["ncell"], q["ns"], q["perm"], q["rx"], q["k"], q["y"],
+                      q["atol"], q["rtol"], q["dt"], trace, q["ptoks"]).split(" ")
+    return " ".join(["bsolve"] + toks[1:5] + [str(int(reorder))] + toks[5:])
+
+def oracle_bsolve(c, out):
+    """build + solve through the public by-name interface: the name map is a bijection, and every species got the
+    absolute tolerance declared for it (1e-3 when none was declared), whatever reordering the builder chose"""
+    cmd, d = parse_kv(out or "")
+    if cmd != "solve":
+        return f"Build/Solve outcome '{(out or '')[:80]}'"
+    m = c.meta
+    col = [int(x) for x in d.get("col", [])]
+    if sorted(col) != list(range(m["ns"])):
+        return f"the name map {col} of the built solver is not a bijection onto 0..{m['ns'] - 1}"
+    got = [unhex(v) for v in d.get("atol", [])]
+    for i, a in enumerate(m["atol"]):
+        want = a if a >= 0 else 1e-3
+        if i >= len(got) or got[i] != want:
+            return (f"absolute tolerance of species s{i} is {got[i] if i < len(got) else None!r}, declared {('%r' % a) if a >= 0 else 'none (default 1e-3)'} "
+                    f"(reorder={m['reorder']}, listing order {m['perm']}, state column {col[i]})")
+    return None
+
+def gen_bsolve_groups(r, env, Ls, n, tag):
+    """one problem solved by name with reordering off/on and the species listed in different orders (and, for C12,
+    in different storage configurations): same per-species concentrations up to rounding when the histories agree"""
+    cs = []
+    for gid in range(n):
+        p = gen_solve_problem(r, env, Ls, stiff=r.chance(0.5), maxns=6)
+        ns = p["ns"]
+        p["atol"] = [r.pick([1e-3, 1e-6, 1e-9, 1e-12, -1.0]) for _ in range(ns)]
+        variants = [(0, list(range(ns)), p["L"], p["csc"], p["kind"])]
+        for _ in range(3):
+            variants.append((r.below(2), r.shuffle(range(ns)), r.pick(Ls), r.below(2), r.below(4)))
+        variants.append((1, list(range(ns)), p["L"], p["csc"], p["kind"]))
+        for (reorder, perm, L, csc, kind) in variants:
+            meta = dict(p); meta.update(reorder=reorder, perm=perm, L=L, csc=csc, kind=kind, cfg=f"reorder{reorder}/order{perm}/L{L}/csc{csc}/lu{kind}")
+            cs.append(Case(bsolve_line(p, reorder, perm=perm, L=L, csc=csc, kind=kind), meta, "bsolve", oracle=oracle_bsolve,
+                           group=((tag, gid), grp_cross_config), tags=["bsolve", "reorder=%d" % reorder]))
+    return cs
+
 def parse_solve(out):
     cmd, d = parse_kv(out)
     if cmd != "solve":
@@ -1004,6 +1047,8 @@ def g_c12(r, tier, env, Ls):
             perm = p["perm"] if r.chance(0.5) else r.shuffle(range(p["ns"]))
             cs.append(Case(problem_line(p, L=L, csc=csc, kind=kind, perm=perm, trace=0), meta, "solve-cfg",
                            group=(("c12", gid), grp_cross_config), tags=["L=%d" % L, "kind=%d" % kind]))
+    # the whole user path: Build (state reordering on/off, species listed in any order, tolerance properties) + Solve by name
+    cs += gen_bsolve_groups(r, env, Ls, 25 if tier == "quick" else 400, "c12b")
     return cs
 
 def g_c13(r, tier, env, Ls):
@@ -1241,7 +1286,8 @@ def g_c14(r, tier, env, Ls):
                 continue
             b = [(bits >> q) & 1 for q in range(n * n)]
             cs.append(Case(" ".join(["markowitz", str(n)] + [str(x) for x in b]), dict(n=n), "markowitz", oracle=oracle_perm, tags=["markowitz_n=%d" % n]))
-    # permutation invariance of the per-species solution (reorder on/off, species listed in different orders)
+    # permutation invariance of the per-species solution (reorder on/off, species listed in different orders), tolerances by name
+    cs += gen_bsolve_groups(r, env, Ls, 30 if tier == "quick" else 500, "c14b")
     return cs
 
 def oracle_perm(c, out):
